@@ -165,6 +165,11 @@ pub fn entry_ftl(st: char, loc: &str, id: &str) -> Option<String> {
             id, sfx
         ),
         'y' => format!("{} =\n    .t = YT {} {{ $x }}\n", id, sfx),
+        // an attribute name REPEATED (legal FTL): a batch of messages hands over every attribute, in source order
+        'r' => format!(
+            "{} = R {}\n    .t = RT {}\n    .u = RU {{ $x }}\n    .t = RV {{ -nope }}\n",
+            id, sfx, sfx
+        ),
         _ => return None,
     })
 }
